@@ -197,7 +197,8 @@ def node_roundtrips(ctx, sheet, case):
 
 def content_cases(rng, n):
     """strings, urls, names and comments over awkward characters"""
-    chars = list('ab 01;{}()/*@#.,:-_%!') + ["'", '"', '\\', '\n', '\t', '\r', '\f', 'ä', '中', '\U0001f600', '\x7f', ' ']
+    chars = list('ab 01;{}()/*@#.,:-_%!') + ["'", '"', '\\', '\n', '\t', '\r', '\f', 'ä', '中', '\U0001f600', '\x7f', ' ',
+                                             '\xa0', '\x85', '\u2003', '\u2028', '\u3000', '\x0b', '\x1f', '\ufeff']
     out = []
     for _ in range(n):
         s = ''.join(rng.choice(chars) for _ in range(rng.randrange(0, 7)))
